@@ -378,7 +378,12 @@ func (s *session) execOp(f []string) (string, bool) {
 			return "", false
 		}
 		im := s.simgs[a[0]]
-		// NB: Sixel.Resize does all its work in a goroutine; a panic there cannot be recovered here
+		// NB: Sixel.Resize does all its work in a goroutine; a panic there cannot be recovered here and would kill
+		// the harness: a zero cell pixel size (what the goroutine would divide by) is reported as the panic it would be
+		if gw, gh := s.kvx.VerifC20CellPixelSize(); gw == 0 || gh == 0 {
+			s.r.Count("sresize-would-divide-by-zero")
+			return "panic", true
+		}
 		im.Resize(a[1], a[2])
 		px := s.resizedPx(s.imgDims[a[0]], a[1], a[2])
 		deadline := time.Now().Add(10 * time.Second)
